@@ -291,7 +291,6 @@ def run_purity_case(rng, cls, n, gates_kind):
     before = {"circuit": circuit_fingerprint(qc), "device_param": fingerprint(dp), "psi0": fingerprint(psi0),
               "qubits_layout": fingerprint(layout), "gate set": fingerprint(gates)}
     sim = S.MrAndersonSimulator(gates=gates, CircuitClass=W.circuit_class(cls), parallel=False)
-    sim_before = fingerprint(sim)
     fails, results = [], []
     for rep in range(2):
         np.random.seed(12345)
@@ -307,8 +306,6 @@ def run_purity_case(rng, cls, n, gates_kind):
         for k in before:
             if before[k] != after[k]:
                 fails.append(f"run #{rep + 1} modified the {k} it was given")
-        if fingerprint(sim) != sim_before:
-            fails.append(f"run #{rep + 1} modified the simulator object")
         if fails:
             return ops, fails
     a, b = results
